@@ -102,6 +102,14 @@ def gen_cases(ctx):
         ws = [mc.gen_w(rng, t, depth, fdc) for t in ts]
         off = rng.choice(list(range(16)) + [rng.randrange(16, 200)])
         yield {'ts': ts, 'ws': ws, 'off': off, 'le': rng.random() < 0.5, 'shape': rng.randrange(1 << 30)}
+    # boundaries of the one-byte signature length: g values of 127..255 characters, and variants whose content signature is that long
+    for le in (True, False):
+        for n in (126, 127, 128, 129, 254, 255):
+            yield {'ts': ['g'], 'ws': ['y' * n], 'off': rng.randrange(8), 'le': le, 'shape': rng.randrange(1 << 30)}
+            yield {'ts': ['y', 'g', 'u'], 'ws': [1, 'y' * n, 7], 'off': 0, 'le': le, 'shape': rng.randrange(1 << 30)}
+        for nf in (125, 126, 127, 200, 253):        # '(' + 'y'*nf + ')' has nf + 2 characters
+            yield {'ts': ['v'], 'ws': [{'vt': ['(', ['y'] * nf], 'w': [j % 251 for j in range(nf)]}], 'off': rng.randrange(8), 'le': le,
+                   'shape': rng.randrange(1 << 30)}
     # deep nesting to the spec limits (a few)
     for n in ([8, 16, 32] if ctx.quick else [8, 16, 24, 32, 32, 32]):
         t = 'i'
@@ -117,20 +125,26 @@ def gen_cases(ctx):
 
 def run_impl_marshal(marshal, sig, vals, off, le, fds):
     try:
-        n, chunks = marshal.marshal(sig, vals, off, le, fds)
+        with common.bounded(20):
+            n, chunks = marshal.marshal(sig, vals, off, le, fds)
         return ('ok', n, b''.join(chunks))
     except RecursionError:
         return ('limit',)
+    except (common.Timeout, MemoryError):
+        return ('err', 'DoesNotTerminate')
     except Exception as e:
         return ('err', type(e).__name__)
 
 
 def run_impl_unmarshal(marshal, sig, data, off, le, fds):
     try:
-        n, vals = marshal.unmarshal(sig, data, off, le, fds)
+        with common.bounded(20):
+            n, vals = marshal.unmarshal(sig, data, off, le, fds)
         return ('ok', n, [mc.pv_form(v) for v in vals])
     except RecursionError:
         return ('limit',)
+    except (common.Timeout, MemoryError):
+        return ('err', 'DoesNotTerminate')
     except Exception as e:
         return ('err', type(e).__name__)
 
